@@ -73,6 +73,9 @@ pub enum Fault {
     ReadErr { at: usize, kind: ErrKind },
     /// The writer gets BrokenPipe once `at` bytes have been accepted.
     WriteErr { at: usize },
+    /// The writer gets one error once `at` bytes have been accepted, and works again afterwards (a
+    /// write-timeout wrapper, a layer that reports a transient condition as an error).
+    WriteErrOnce { at: usize },
     /// The k-th flush (0-based) fails.
     FlushErr { k: usize },
     /// Bytes beyond offset `at` are accepted but never delivered (a silent peer).
@@ -118,6 +121,8 @@ struct State {
     shutdown_at: Option<Instant>,
     /// the kind injected write / flush errors carry
     write_err_kind: ErrKind,
+    /// bytes accepted so far at each injected write / flush error
+    fault_offsets: Vec<usize>,
 }
 
 #[derive(Clone)]
@@ -154,6 +159,7 @@ pub fn pipe(p: PipeParams) -> (PipeWriter, PipeReader, PipeHandle) {
         stall_until: None,
         shutdown_at: None,
         write_err_kind: ErrKind::BrokenPipe,
+        fault_offsets: Vec::new(),
     };
     let h = PipeHandle(Arc::new(Mutex::new(st)));
     (PipeWriter(h.clone()), PipeReader { h: h.clone(), sleep: None }, h)
@@ -245,6 +251,10 @@ impl PipeHandle {
     pub fn faults_hit(&self) -> usize {
         self.0.lock().unwrap().faults_hit
     }
+    /// How many bytes had been accepted at each injected write / flush error.
+    pub fn fault_offsets(&self) -> Vec<usize> {
+        self.0.lock().unwrap().fault_offsets.clone()
+    }
     pub fn flushes(&self) -> usize {
         self.0.lock().unwrap().flushes
     }
@@ -257,7 +267,18 @@ impl AsyncWrite for PipeWriter {
             return Poll::Ready(Err(io::Error::new(io::ErrorKind::BrokenPipe, "write after shutdown")));
         }
         let mut limit = usize::MAX;
+        if let Some(i) = s.faults.iter().position(|f| matches!(f, Fault::WriteErrOnce { at } if s.accepted >= *at)) {
+            // one error, then the transport works again
+            s.faults.remove(i);
+            s.faults_hit += 1;
+            let acc = s.accepted;
+            s.fault_offsets.push(acc);
+            return Poll::Ready(Err(s.write_err_kind.to_io()));
+        }
         for f in &s.faults {
+            if let Fault::WriteErrOnce { at } = f {
+                limit = limit.min(*at - s.accepted);
+            }
             if let Fault::WriteErr { at } = f {
                 if s.accepted >= *at {
                     s.faults_hit += 1;
@@ -315,6 +336,8 @@ impl AsyncWrite for PipeWriter {
         s.log.push(Ev::Flush { t: Instant::now() });
         if s.faults.iter().any(|f| matches!(f, Fault::FlushErr { k: kk } if *kk == k)) {
             s.faults_hit += 1;
+            let acc = s.accepted;
+            s.fault_offsets.push(acc);
             return Poll::Ready(Err(s.write_err_kind.to_io()));
         }
         let broken = s.faults.iter().any(|f| matches!(f, Fault::WriteErr { at } if s.accepted >= *at));
